@@ -470,9 +470,9 @@ theorem pass_count_step (s : Station) (apps : Apps) (now : Int) (phy : Bool) (rx
 /-- The stage is the attempt number while the bus is watched: the ghost count of transmissions is tied
 to the `Attempt` of the state. -/
 theorem stage_is_attempt (att : Attempt) :
-    sent (.checkTokenPass att) = att.num ∧ (att.num = 1 ↔ att = .first) ∧ (att.num = 2 ↔ att = .second) ∧
-    (att.num = 3 ↔ att = .third) := by
-  cases att <;> simp [sent, Attempt.num]
+    sent (.checkTokenPass att) = att.ord ∧ (att.ord = 1 ↔ att = .first) ∧ (att.ord = 2 ↔ att = .second) ∧
+    (att.ord = 3 ↔ att = .third) := by
+  cases att <;> simp [sent, Attempt.ord]
 
 /-- **`pass_count_run`** (claim (1), any run of polls inside one pass, any times, any bytes, any
 applications).  Start in `CheckTokenPass(first)` — the first transmission is out.  Then the run
@@ -490,7 +490,7 @@ theorem pass_count_run {w w' : World} {ins : List PollIn} {txs : List (Nat × By
   obtain ⟨h1, h2, h3, h4⟩ := passCount_run h
   have hle := passCount_le h
   rw [hst] at h1 hle
-  refine ⟨by simp [sent, Attempt.num] at hle; omega, by simpa [sent, Attempt.num] using h1, h3, ?_, h2, h4⟩
+  refine ⟨by simp [sent, Attempt.ord] at hle; omega, by simpa [sent, Attempt.ord] using h1, h3, ?_, h2, h4⟩
   intro ns hns e he
   rw [h3 e he, hns e he]; rfl
 
@@ -516,7 +516,7 @@ theorem removal_needs_three {w w1 w2 : World} {ins : List PollIn} {txs : List (N
   · exact .inl hr
   · obtain ⟨-, h1, h2, -⟩ := pass_count_run hrun hst
     rw [h3] at h1
-    exact .inr ⟨by simp [sent, Attempt.num] at h1; omega, h2, h3, hsil, hrm⟩
+    exact .inr ⟨by simp [sent, Attempt.ord] at h1; omega, h2, h3, hsil, hrm⟩
 
 /-- **`pass_counting`** (whole histories).  From ANY state satisfying the station invariant that has
 just entered `CheckTokenPass(first)`, and for EVERY list of further polls (any times, any arriving
@@ -549,7 +549,7 @@ theorem pass_counting (w : World) (hi : Inv w.s w.apps) (hst : w.s.st = .checkTo
   · refine .inr ⟨i, rest, w2, tx, e2, hp, pass_end hp hdrop, ?_⟩
     intro h3'
     rw [h3'] at h2
-    simp [sent, Attempt.num] at h2; omega
+    simp [sent, Attempt.ord] at h2; omega
 
 /-- In `pass_counting` the removal exit (`PassEnd.removed`) requires `CheckTokenPass(third)`, hence
 exactly two repetitions: spelled out. -/
@@ -565,7 +565,7 @@ theorem removed_after_three {w w1 : World} {ins : List PollIn} {txs : List (Nat 
   · exact .inr ⟨h1, .inl hr⟩
   · exact .inr ⟨h1, .inr hr⟩
   · rw [h3] at h2
-    refine .inl ⟨r0, hr0, by simp [sent, Attempt.num] at h2; omega, hex, ?_⟩
+    refine .inl ⟨r0, hr0, by simp [sent, Attempt.ord] at h2; omega, hex, ?_⟩
     rcases hr with ⟨-, hr, -⟩ | ⟨hr, -⟩
     · exact .inl hr
     · exact .inr hr
@@ -580,10 +580,10 @@ def stageTrace (w : World) : List PollIn → List (Nat × Option Bytes × Nat ×
     | none => []
 
 /-- TS 7 in a ring 3 → 7 → 9 (LAS valid), about to pass the token for the first time. -/
-def ring3 : TokenRing := (({ (TokenRing.new 7) with las := .valid }).witness 9 3).witness 3 7
+def passRing3 : TokenRing := (({ (TokenRing.new 7) with las := .valid }).witness 9 3).witness 3 7
 
 def passDemo : World :=
-  { s := { demo.s with ring := ring3, st := .passToken false .first, lastBusActivity := some 0 }, apps := [], rx := [] }
+  { s := { demo.s with ring := passRing3, st := .passToken false .first, lastBusActivity := some 0 }, apps := [], rx := [] }
 
 set_option maxRecDepth 100000 in
 /-- Silent successor: the token `DC 09 07` goes out exactly three times (stages 1, 2, 3), and only the
@@ -615,7 +615,7 @@ example : stageTrace passDemo [⟨1000, false, []⟩, ⟨1100, false, [0xDC, 11,
 station invariant that has just entered `CheckTokenPass(first)` (the state `passDemo` is in after its
 first poll, up to the time-stamps). -/
 def checkDemo : World :=
-  { s := { demo.s with ring := ring3, st := .checkTokenPass .first, lastBusActivity := some 1066 }, apps := [], rx := [] }
+  { s := { demo.s with ring := passRing3, st := .checkTokenPass .first, lastBusActivity := some 1066 }, apps := [], rx := [] }
 
 theorem checkDemo_inv : Inv checkDemo.s checkDemo.apps where
   addr := by decide
